@@ -2,7 +2,7 @@
 C18 — the invariant is preserved by every level of the scheduler: one operation, one switch
 into a routine, one schedule() pass, one loop pass, cleanup(), every main-context step.
 -/
-import TboxModel.C18.ExecL
+import TboxModel.C18.MainCall
 namespace Tbox.C18
 
 theorem execOp_L {s : State} {me : Nat} (op : Op) (rest : List Op) (h : InvL s) (hS : InvS s) :
@@ -119,6 +119,10 @@ theorem execOp_L {s : State} {me : Nat} (op : Op) (rest : List Op) (h : InvL s) 
     split <;> exact finish_L_neutral _ _ _ _ (cancelR_L t h) rfl
   | exit =>
     simp only [execOp]; exact h
+  | throw =>
+    simp only [execOp]; exact (Woke.abort s).invL h
+  | rcleanup =>
+    simp only [execOp]; exact (Woke.abort s).invL h
 
 theorem execOp_inv {s : State} {me : Nat} (op : Op) (rest : List Op) (h : Inv s) (hr : Run s me) :
     Inv (execOp s me op rest).1 ∧ ((execOp s me op rest).2 ≠ .block → Run (execOp s me op rest).1 me) :=
@@ -313,8 +317,15 @@ theorem switchTo_inv {s : State} {r : Nat} (s0 : State)
 @[simp] theorem setBc_tmp (s : State) (r x) : (s.setBc r x).tmp = s.tmp := rfl
 @[simp] theorem setCd_tmp (s : State) (r x) : (s.setCd r x).tmp = s.tmp := rfl
 
+@[simp] theorem abort_tmp' (s : State) : (abort s).tmp = s.tmp := abort_tmp s
+@[simp] theorem logMain_tmp (s : State) (op res) : (logMain s op res).tmp = s.tmp := rfl
+
 theorem execOp_tmp (s : State) (me : Nat) (op : Op) (rest : List Op) : (execOp s me op rest).1.tmp = s.tmp := by
   cases op <;> simp only [execOp] <;> repeat' split
+  all_goals simp
+
+theorem mainCall_tmp (s : State) (op : Op) : (mainCall s op).tmp = s.tmp := by
+  cases op <;> simp only [mainCall] <;> repeat' split
   all_goals simp
 
 
@@ -536,6 +547,7 @@ theorem cleanup_tmp (s : State) : (cleanup s).tmp = s.tmp := by
 
 theorem applyMain_inv {s : State} (op : MainOp) (h : Inv s) : Inv (applyMain s op) ∧ (applyMain s op).tmp = s.tmp := by
   cases op with
+  | call op => exact ⟨⟨mainCall_S op h.S, mainCall_L op h.L h.S⟩, mainCall_tmp s op⟩
   | define xf ops =>
     refine ⟨⟨?_, h.L.of_eq rfl rfl rfl rfl⟩, rfl⟩
     have hS := h.S
@@ -549,7 +561,13 @@ theorem applyMain_inv {s : State} (op : MainOp) (h : Inv s) : Inv (applyMain s o
 
 theorem step_inv {s : State} (op : MainOp) (h : Inv s) (ht : s.tmp = []) : Inv (step s op) ∧ (step s op).tmp = [] := by
   have h1 := applyMain_inv op h
-  exact loopPass_inv h1.1 (h1.2.trans ht)
+  unfold step
+  split
+  · exact ⟨h, ht⟩
+  · simp only []
+    split
+    · exact ⟨h1.1, h1.2.trans ht⟩
+    · exact loopPass_inv h1.1 (h1.2.trans ht)
 
 theorem run_inv (ops : List MainOp) {s : State} (h : Inv s) (ht : s.tmp = []) : Inv (run s ops) ∧ (run s ops).tmp = [] := by
   induction ops generalizing s with
